@@ -24,6 +24,7 @@ func init() {
 			{ID: "C02.R2", Min: 1, Desc: "system queue observed empty before every user pop", Fn: c02SystemFirst},
 			{ID: "C02.R3", Min: 3, Desc: "kill/poison: system flag = !Poison at every tell of OnKill / restart message", Fn: c02Poison},
 			{ID: "C02.R4", Min: 2, Desc: "Unstash: ascending prefix traversal, same prefix removed", Fn: c02Unstash},
+			{ID: "C02.R6", Min: 3, Desc: "the stash is written only by Stash and Unstash", Fn: c02StashWriters},
 			{ID: "C02.R5", Min: 6, Desc: "a single consumer pops and hands over in pop order (C01.R1/R5): two consumers would reorder", Fn: func(p *Program, r *Report) { c01Election(p, r); c01Handoff(p, r) }},
 		},
 	})
@@ -660,5 +661,76 @@ func c02Unstash(p *Program, r *Report) {
 		}
 		eq := g.edgesWhere(func(f cmpFact) bool { return f.Y != nil && f.Op == token.EQL })
 		r.Check(len(eq) > 0 && g.DominatedByEdges(s, eq), "Unstash releases the array only when empty", st.Pos(), "stash = nil is stored only under an equality guard (restored count == stash length)")
+	}
+}
+
+
+// c02StashWriters: "stashed messages come back in the order they were stashed, each exactly once" — and (C03) a stashed message
+// sits in the stash until it is taken out. The stash is a plain slice of the context: any other writer (a "release" on
+// termination, a reset on restart) silently discards what it holds. Who-may-write: every store to the stash field lies in
+// Stash, in Unstash or in a helper only they call; a writer elsewhere is accepted only when the same function hands every
+// element on (ranges over the stash and enqueues / tells the element).
+func c02StashWriters(p *Program, r *Report) {
+	ctx := p.contextType()
+	if ctx == nil {
+		r.Unresolved("actor context type")
+		return
+	}
+	un := p.methodNamed(ctx, "Unstash")
+	sf := p.methodNamed(ctx, "Stash")
+	if un == nil || sf == nil {
+		r.Unresolved("Stash/Unstash methods")
+		return
+	}
+	var stash *types.Var
+	for _, in := range p.igx(sf).Nodes {
+		if st, ok := in.(*ssa.Store); ok {
+			if f, _ := fieldAddr(st.Addr); f != nil {
+				if _, isSl := f.Type().Underlying().(*types.Slice); isSl {
+					stash = f
+				}
+			}
+		}
+	}
+	if stash == nil {
+		r.Unresolved("stash field")
+		return
+	}
+	owners := []*IG{p.igx(sf), p.igx(un)}
+	n := 0
+	for _, a := range p.fieldAccesses(map[*types.Var]bool{stash: true}) {
+		if !a.Write || a.Fresh {
+			continue
+		}
+		n++
+		owned := false
+		for _, og := range owners {
+			if og.owns(p, a.Fn) {
+				owned = true
+			}
+		}
+		if !owned {
+			// hands every element on before dropping them?
+			g := p.ig(a.Fn)
+			for _, in := range g.Nodes {
+				c := callOf(in)
+				if c == nil {
+					continue
+				}
+				for _, arg := range c.Args {
+					if ld, isU := strip(arg).(*ssa.UnOp); isU && ld.Op == token.MUL {
+						if ia, isIA := ld.X.(*ssa.IndexAddr); isIA {
+							if f, _ := fieldLoad(strip(ia.X)); f == stash && g.ReachAfter(g.Idx[in], nil, nil)[a.Node] {
+								owned = true
+							}
+						}
+					}
+				}
+			}
+		}
+		r.Check(owned, "stash written in "+fnName(a.Fn), a.In.Pos(), "the stash is assigned only by Stash (append the current envelope), by Unstash (drop the re-enqueued prefix), or by a function that first hands every element on: any other assignment discards stashed messages, which are then neither processed nor dead-lettered")
+	}
+	if n == 0 {
+		r.Unresolved("no store to the stash field")
 	}
 }
